@@ -903,7 +903,7 @@ Proof.
     unfold head_ok in Hh. repeat rewrite andb_true_iff in Hh.
     destruct Hh as [[[Hokh Hnor] Heffh] _]. apply Nat.leb_le in Heffh.
     simpl pr_stmt. rewrite Hdir.
-    rewrite !toks_app. simpl (toks sep_clause). fold (tk MTop h) in *. fold (tk MTop b). simpl app.
+    rewrite !toks_app. simpl (toks sep_clause). fold (tk MTop h) in *. fold (tk MTop b). cbn [app].
     pose proof (reads_ok _ _ Hokh) as Rh. pose proof (reads_ok _ _ Hokb) as Rb.
     remember (tk MTop b) as tb eqn:Etb.
     set (nk := TName ":-" false).
@@ -915,7 +915,8 @@ Proof.
                       (fun k' Hk' => infix_stop 1199 [TClose] 1199 h (eff MTop h) k' I ltac:(lia) Hk') 5).
       assert (Hc : 1 + cost [] <= 5) by (unfold cost; simpl; lia).
       specialize (Z Hc). simpl in Z. discriminate Z.
-    + simpl in Hneck. simpl app in *. cbv beta iota. rewrite Hneck.
+    + simpl in Hneck. cbn [app] in *. cbv beta iota. rewrite Hneck.
+      cbn [toks]. unfold tk in Etb. rewrite <- ?Etb.
       rewrite Xh by (unfold fuel_for, cost; simpl length; rewrite app_length; simpl length; lia).
       simpl is_neck. cbv iota. rewrite Xb.
       unfold mk_clause. unfold not_or in Hnor.
@@ -931,14 +932,15 @@ Proof.
   - (* AD *)
     destruct Hok as [[[[Hlen Hhs] Hokb] Heffb] Hneck].
     apply negb_true_iff in Hneck. apply Nat.leb_le in Heffb.
-    simpl pr_stmt. destruct hs as [|h r]; [simpl in Hlen; discriminate|].
+    destruct hs as [|h r]; [simpl in Hlen; discriminate|].
     destruct r as [|x r]; [simpl in Hlen; discriminate|].
+    cbn [pr_stmt].
     destruct (reads_chain (x :: r) h Hhs) as (pt & rl & Hpt & Hrl & Rh).
     pose proof (reads_ok _ _ Hokb) as Rb.
-    rewrite !toks_app. simpl (toks sep_clause). fold (tk MTop b). simpl app.
+    rewrite !toks_app. simpl (toks sep_clause). fold (tk MTop b). cbn [app].
     remember (tk MTop b) as tb eqn:Etb.
     set (nk := TName ":-" false).
-    remember (toks (join_heads (h :: x :: r))) as hd eqn:Ehd.
+    remember (toks (join_heads (h :: x :: r))) as hd eqn:Ehd. clear Ehd.
     assert (Xh := reads_before_neck _ _ _ _ nk tb (fuel_for (hd ++ nk :: tb)) Rh ltac:(lia) eq_refl).
     assert (Xb := reads_full _ _ _ _ (fuel_for (hd ++ nk :: tb)) Rb ltac:(lia) (fuel_enough2 _ _ _)).
     unfold parse_stmt. destruct hd as [|t0 r0].
@@ -947,7 +949,8 @@ Proof.
                       (fun k' Hk' => infix_stop 1199 [TClose] 1199 _ pt k' I ltac:(lia) Hk') 5).
       assert (Hc : 1 + cost [] <= 5) by (unfold cost; simpl; lia).
       specialize (Z Hc). simpl in Z. discriminate Z.
-    + simpl in Hneck. simpl app in *. cbv beta iota. rewrite Hneck.
+    + simpl in Hneck. cbn [app] in *. cbv beta iota. rewrite Hneck.
+      cbn [toks]. unfold tk in Etb. rewrite <- ?Etb.
       rewrite Xh by (unfold fuel_for, cost; simpl length; rewrite app_length; simpl length; lia).
       simpl is_neck. cbv iota. rewrite Xb.
       unfold mk_clause. rewrite (heads_of_chain (x :: r) h Hhs). reflexivity.
